@@ -43,7 +43,9 @@ CLAIMED = {
             'Kernel-checked: every operation adds exactly create i then exactly one of save i / abort i to the cassette log, '
             'for all programs, faults, discards, sampling outcomes, exceptions and interrupts; a discarded recording is never '
             'saved whatever the rest of the operation does; a finalised recording object is closed and rejects later writes '
-            '(unless the cassette\'s save raised, in which case it stays open and nothing was stored).',
+            '(unless the cassette\'s save raised, in which case it stays open and nothing was stored); programs may flip the '
+            'recorder\'s kill switch at any step (Prog.setEnabled): a recording in flight implies the switch is on (invariant over '
+            'all programs, after fix F15) and switching recording off aborts the recording whatever follows.',
             'Trusted: Lean kernel; hand-written recorder model tied by differential execution; sequential programs.',
             'DESIGN.md 6/C05'),
     'C09': ('Lean 4 theorems: idle after every kind of run (induction on programs via the scope invariant), idle after any '
@@ -79,7 +81,8 @@ CLAIMED = {
             'generator, limits {None,0,1,2,n,n+3}, ordered/random, skip_incomplete)',
             'Kernel-checked for every cassette, directory order, choice stream and shuffle: never raises, sound, complete without '
             'a limit, duplicate-free, min(limit, matches), fetchable, same set on all cassettes for JSON-native metadata, '
-            'skip-incomplete excludes exactly the flagged recordings, prefix-related categories cannot be confused.',
+            'skip-incomplete excludes exactly the flagged recordings, prefix-related categories cannot be confused; ids may hold '
+            'dots (after fix F14 the file cassette strips only the extension: stem = splitext in the model).',
             'Known finding K3 (S3 filters the JSON text of the metadata) is transcribed in the model, hypothesised away in '
             'C10_same_set, exhibited by C10_k3_counterexample and witnessed in the corpus. Time windows are C16. Trusted: fake S3, '
             'filesystem, jsonpickle round trip of metadata, fnmatch parameter.', 'DESIGN.md 6/C10'),
@@ -89,7 +92,7 @@ CLAIMED = {
             'Kernel-checked: for every id sequence, behaviour assignment, recycle rate, timeout and keep flag, the dedicated-'
             'process run equals the list of per-recording verdicts alone (count, order, label, status, message, replay, kept '
             'results); a fault changes only its own comparison; in-process and dedicated runs are equal on behaviours '
-            'meaningful in both; the pre-fix shared queue is refuted by decide. The correspondence check runs the real '
+            'meaningful in both (a result the parent cannot unpickle, Beh.unreadable, is a failure of the dedicated mode only); the pre-fix shared queue is refuted by decide. The correspondence check runs the real '
             'Equalizer and the model on the same sequences on every run.',
             'Partial for runtime: multiprocessing pipes, feeder threads and signals are exercised, not proved. Trusted: Lean '
             'kernel; the model is tied by differential execution only; time is abstracted to the parent\'s 1 s polls; late is '
@@ -158,7 +161,7 @@ CLAIMED = {
             'the exhaustive decision table (incl. draws equal to the rate) and seeded histories on the recorder\'s own Random(seed)',
             'Kernel-checked for every program and recorder state: skipped classes never touch the cassette; discarded => abort; '
             'otherwise save iff forced (and not ignored) or rate >= 1 or the next draw <= rate; exactly one draw iff needed; '
-            'forcing never leaks into the next run. Kept fraction, counting form (induction on the history): over any history of '
+            'forcing never leaks into the next run; switching recording off mid-operation wins like a discard and touches no draw. Kept fraction, counting form (induction on the history): over any history of '
             'N recorded, undiscarded, unforced operations of a class with rate < 1 exactly N draws are consumed in order and the '
             'number kept equals the number of those draws within the rate. That this fraction tends to the rate for independent '
             'uniform draws (law of large numbers) is NOT formalised: partial; the tie compares kept decisions with the seeded '
@@ -221,7 +224,9 @@ CLAIMED = {
             'Kernel-checked for every interleaving of any number of producers, flusher micro-steps, timer and close: no loss, no '
             'duplication, order preserved; everything appended before close is applied as a prefix once the flusher stops, and '
             'after close the flusher always can stop; per-producer program order; store and outcomes equal the synchronous twin; '
-            'failures never block later ops; the lock is never held across a wrapped call. Broken variants are refuted.',
+            'failures never block later ops; the lock is never held across a wrapped call; once the flusher has stopped nothing '
+            'reaches the wrapped cassette any more (C12_stopped_is_final). Broken variants are refuted. Sequential, unmodelled part of '
+            'the tie: equal-but-different values and bursts of thousands of writes against recording directly.',
             'Partial: CPython switch points are explored within bounds (all schedules with <= k pre-emptions on 5 workloads plus '
             'random workloads and schedules at line and byte-code granularity); close()\'s join(timeout) expiring under a slow '
             'store is wall-clock behaviour outside the model; list.append and attribute stores assumed atomic; known finding K9 '
